@@ -113,7 +113,9 @@ class CHECK(FloCheck):
         # framers all of whose frames show their enter and exit: only those can be judged by rules (3)
         obs = {i for i in range(len(prog["framers"]))
                if all((f in has_enter and f in has_exit) for f, o in owner.items() if o == i)}
-        clock = clock_only_shares(prog)
+        # guards are judged on end-of-tick values only in gen_guards programs: there framer 0 is a plain clock that
+        # runs first, owns no auxiliary, and is the only writer of the guard shares
+        clock = clock_only_shares(prog) if case.get("gen") == "guards" else set()
         tk = set(floeng.taskables(prog))
         period = prog["period"]
         entered = {}
@@ -147,7 +149,7 @@ class CHECK(FloCheck):
                     if c == "enter":
                         entered[g_] = True
                         if vals is not None and toks[0] == "S":
-                            for nd in lets[g_]:
+                            for nd in (lets[g_] if owner[g_] != 0 else []):
                                 if nd["k"] == "cd" and nd["sh"] in clock and not holds(nd, vals):
                                     return "%s: frame f%d was entered although its guard `%s` is false (store %s)" % (
                                         where, g_, floeng.need_text(prog, owner[g_], nd), vals)
